@@ -50,7 +50,7 @@ ASSUME Lemmas2D
 
 (* ---- boundary-case generator *)
 Syms == JsonDeserialize("syms.json")        \* sequence of [fmt, nw, nh]
-Margins(fmt) == IF ClassOf(fmt) = "dm" THEN {-1} ELSE {-1, 0, 1, 2, 4, 7, 20}
+Margins(sy) == IF ClassOf(sy.fmt) = "dm" THEN {-1} ELSE IF sy.nw * sy.nh > 900 THEN {-1, 0, 3} ELSE {-1, 0, 1, 2, 4, 7, 20}
 Around(u) == {0} \cup {x \in {(k * u) + d : k \in 1..K, d \in {-1, 0, 1}} : x >= 0}
 Cases(sy, m) ==
   LET cls == ClassOf(sy.fmt)
@@ -59,7 +59,7 @@ Cases(sy, m) ==
       ws  == Around(sy.nw + qq)
       hs  == IF cls = "1d" THEN {0, 1, 2, 5} ELSE Around(sy.nh + qq)
   IN {[fmt |-> sy.fmt, nw |-> sy.nw, nh |-> sy.nh, margin |-> m, rw |-> w, rh |-> h] : w \in ws, h \in hs}
-InitG == n \in 1..Len(Syms) /\ q \in Margins(Syms[n].fmt) /\ req = 0 /\ mode = "gen"
+InitG == n \in 1..Len(Syms) /\ q \in Margins(Syms[n]) /\ req = 0 /\ mode = "gen"
 NextG == /\ mode = "gen" /\ req = 0
          /\ PrintT(<<"GEN", ToJson(Cases(Syms[n], q))>>)
          /\ req' = 1 /\ UNCHANGED <<n, q, mode>>
